@@ -1,6 +1,7 @@
 import DnsVerif.Lemmas.NameSound
 import DnsVerif.Spec.Wire
 import DnsVerif.Lemmas.SoundMsg
+import DnsVerif.Spec.Formats
 
 /-! # C03 — an accepted message means exactly what the RFCs say its bytes mean
 
@@ -68,5 +69,38 @@ swap or a short mask: the grammar is written from the RFC field order) -/
 theorem value_on_wire {d d' : D} {w n : Nat} (hd : D.Ok d) (h : decField d (.num w) = .ok (.num n, d')) :
     beVal ((d.buf.drop d.off).take w) = n ∧ BytesAt d.buf d.off (beBytes w n) ∧ n < 256 ^ w ∧ d'.off = d.off + w :=
   Sound.value_on_wire hd h
+
+/-! ## The record table is what the RFCs say (independent transcription) -/
+
+/-- the wire formats of a type's fields according to the model's table (transcribed from the code) -/
+def modelFormat (ty : Nat) : Option (List Fld) :=
+  match rrKind ty with
+  | some (.regular i) => some (i.flds.map (·.2))
+  | _ => none
+
+theorem tables_agree_implemented : ∀ ty ∈ implementedTypes,
+    (modelFormat ty == (Spec.rdataFormat ty).map (fun l => l.map (·.2))) = true := by decide
+
+theorem rrKind_none_of_not_implemented {ty : Nat} (h : ty ∉ implementedTypes) : rrKind ty = none := by
+  unfold rrKind
+  split <;> first | rfl | (exfalso; apply h; decide)
+
+theorem rdataFormat_none_of_not_implemented {ty : Nat} (h : ty ∉ implementedTypes) : Spec.rdataFormat ty = none := by
+  unfold Spec.rdataFormat
+  split <;> first | rfl | (exfalso; apply h; decide)
+
+/-- **for EVERY type code**, the field order, widths, validators and compressibility that the model (and,
+through the correspondence check, the code) uses are the ones of the RFC transcription `Spec.rdataFormat` -/
+theorem tables_agree (ty : Nat) : modelFormat ty = (Spec.rdataFormat ty).map (fun l => l.map (·.2)) := by
+  by_cases h : ty ∈ implementedTypes
+  · have := tables_agree_implemented ty h
+    simpa using this
+  · simp [modelFormat, rrKind_none_of_not_implemented h, rdataFormat_none_of_not_implemented h]
+
+/-- the class-less record types of the table are exactly the Internet-specific ones of the RFCs -/
+theorem in_only_agree : ∀ ty ∈ implementedTypes,
+    (match rrKind ty with
+      | some (.regular i) => i.inOnly.isSome
+      | _ => false) = Spec.inOnly.contains ty := by decide
 
 end C03
